@@ -138,6 +138,11 @@ def progLen : List Ins → Nat
   | [] => 0
   | i :: rest => i.len + progLen rest
 
+/-- the raw bytes of the function, `memory.RawRead(origin, originFuncSize)` (fix_origin_amd64.go:44) -/
+def progBytes : List Ins → Bytes
+  | [] => []
+  | i :: rest => i.bytes ++ progBytes rest
+
 /-- fix_origin_amd64.go:20 `fixOriginFuncToTrampoline` after the two `GetFuncSize` calls: returns the bytes of the
     single `WriteTo(trampoline, …)`, or an error — in which case nothing at all is written. -/
 def fixOrigin (c : Cfg) (from_ tramp : BitVec 64) (trampSize : Nat) (jumpInstSize : Nat) (prog : List Ins) :
@@ -151,7 +156,7 @@ def fixOrigin (c : Cfg) (from_ tramp : BitVec 64) (trampSize : Nat) (jumpInstSiz
       let data :=
         if (if c.trackGrowth then n else fixed.length) < blockLen then      -- :55
           fixed ++ Gen.Amd64.jmpToOriginFunctionValue (tramp + BitVec.ofNat 64 fixed.length) (from_ + BitVec.ofNat 64 n)
-        else fixed
+        else fixed              -- whole function consumed: the relocated bytes, no jump back (F27 repaired)
       if trampSize < data.length then .error "err:fixed-bigger-than-trampoline"   -- :72
       else .ok data
 
